@@ -714,9 +714,6 @@ func (e *Engine) finishPath(st *State, end pathEnd) {
 	switch end.status {
 	case "ok":
 		res.PathsOK++
-		for l := range st.covers {
-			res.CoverHits[l]++
-		}
 		if len(res.Samples) < 5 {
 			sample = st.describe()
 			res.Samples = append(res.Samples, sample)
